@@ -20,14 +20,14 @@ PROPS["C11"] = dict(
     bounded=[dict(function=q, role="CPython cross-check of a proved contract", bound="structured DER corpus (spec.domains.der_strings)")
              for q in _DER_TLV] +
             [dict(function="ecdsa.der.encode_number", role="CPython cross-check of a proved contract", bound="n in 0..3000 (quick) / 20000 (thorough) + 2^(7k)+-1, 2^64, 2^70, 10^30")] +
-            [dict(function="ecdsa.der.remove_object", label="OBJECT IDENTIFIER codec against the X.690 spec encoders", role="bounded stand-in for the parts of the OID codec that are not discharged: encode_oid beyond six arcs, the round trip of whole OIDs (the round trip of one sub-identifier, read_number(encode_number(n) ++ rest) == (n, len), and the canonical form of what read_number accepts, string[:llen] == subid(number), are discharged lemmas with explicit inductions), and remove_object's clause `consumed bytes == canonical encoding of the returned arcs` (needs uniqueness of base-128 numerals, an induction). Discharged deductively: encode_number == the X.690 sub-identifier in closed form (digits of n // 128^k, minimal, continuation bits) for every n >= 0, and == spec.der.subid(n); encode_oid == 06 || enc_len || subid(40 first + second) || subid(arc)... for every OID of 2 to 6 arcs (AssertionError exactly for first/second outside the X.690 ranges); read_number (canonical structure, value, UnexpectedDER exactly when no canonical sub-identifier starts the string); remove_object (UnexpectedDER is the only exception, the remainder is the suffix after a 0x06 TLV with a non-empty body, arcs in the X.690 ranges)",
+            [dict(function="ecdsa.der.remove_object", label="OBJECT IDENTIFIER codec against the X.690 spec encoders", role="bounded stand-in for the parts of the OID codec that are not discharged: encode_oid beyond six arcs, the round trip of whole OIDs (the round trip of one sub-identifier, read_number(encode_number(n) ++ rest) == (n, len), and the canonical form of what read_number accepts, string[:llen] == subid(number), are discharged lemmas with explicit inductions), (remove_object(encode_oid(arcs) ++ rest) == (arcs, rest)). Discharged deductively: encode_number == the X.690 sub-identifier in closed form (digits of n // 128^k, minimal, continuation bits) for every n >= 0, and == spec.der.subid(n); encode_oid == 06 || enc_len || subid(40 first + second) || subid(arc)... for every OID of 2 to 6 arcs (AssertionError exactly for first/second outside the X.690 ranges); read_number (canonical structure, value, UnexpectedDER exactly when no canonical sub-identifier starts the string); remove_object (UnexpectedDER is the only exception; arcs in the X.690 ranges; the consumed bytes are the X.690 encoding of the returned arcs)",
                   bound="sub-identifiers 0..20000 (quick) / 300000 (thorough) + 2^(7k)+-1, 2^64, 2^70, 10^30, 300 random up to 90 bits; 180 structured OIDs (first arcs at the 39/40/47/48 boundaries, arcs up to 2^70) (+3000 random, thorough) x remainders; every single-byte substitution / insertion / truncation, non-minimal length, padded sub-identifier and length overrun of each canonical encoding must be rejected with UnexpectedDER or be canonical itself",
                   run=_c11_oid)],
     min_obligations=30,
     trusted_base=["byte-string theory axioms of pyvc/sym.py (tested against CPython every run)",
                   "X.690 spec encoders of spec/der.py",
                   "q128(n, k) = n // 128^k enters through ground instances of its recurrence; subid_len_unique (the number of base-128 digits of n is the L with n // 128^L = 0 and (L = 1 or n // 128^(L-1) > 0)) is taken as given",
-                  "remove_object: the clause `consumed bytes == canonical encoding of the returned arcs` is not discharged (bounded stand-in); encode_oid is discharged for 2..6 arcs only"],
+                  "oid_body_cons (fold-left = fold-right for the concatenation of sub-identifiers) is taken as given, tested against CPython; induction over the naturals for the two sub-identifier lemmas; encode_oid is discharged for 2..6 arcs only; round trip of whole OIDs: bounded"],
     explanation="contract-based deductive verification of der.py: each decoder's postcondition is "
                 "`input == spec_encoding(value) ++ rest`, each encoder's is `result == spec_encoding(args)`",
 )
@@ -293,7 +293,7 @@ PROPS["C10"] = dict(
     bounded=[dict(function=_K + "VerifyingKey.from_der", label="key loaders over mutated encodings", role="concretiser / CPython cross-check of the exception sets",
                   bound="3 curves (quick) / 17 (thorough) x 6 loader entry points x valid encodings x truncations, byte substitutions, insertions, deletions (sampled in quick); PEM text mutations", run=_c10_b, budget_s={"quick": 30, "thorough": 600})],
     min_obligations=30,
-    trusted_base=["remove_object (OID reader): its exception set (UnexpectedDER only), the suffix property of the remainder and the arc ranges are discharged from the real AST; only the clause `consumed bytes == canonical encoding of the arcs` is ASSUMED (bounded stand-in in C11) - C10's exception sets do not depend on it", "find_curve: the curve of the table with that OID or UnknownCurveError (finite table)",
+    trusted_base=["remove_object (OID reader) is verified from the real AST in this check (exception set, canonical encoding of the returned arcs)", "find_curve: the curve of the table with that OID or UnknownCurveError (finite table)",
                   "der.unpem is executed from source with exception-level models of split/strip/startswith/join/base64 (only b64decode can raise)",
                   "RuntimeError('No b found') in the p = 1 (mod 8) square-root branch needs a quadratic non-residue below p: assumed"],
     explanation="exceptional postconditions collected per decoder entry point: every path of every loader / signature decoder / verification entry point raises only the documented classes; every while loop on these call graphs has a decreases clause or is bounded by the input length",
